@@ -29,6 +29,9 @@ type ake struct {
 	revealKey akeKeys
 	sigKey    akeKeys
 
+	// ssid of the exchange in progress
+	ssid [8]byte
+
 	state authState
 	keys  keyManagementContext
 
@@ -50,7 +53,11 @@ func (c *Conversation) initAKE() {
 }
 
 func (c *Conversation) calcAKEKeys(s *big.Int) {
-	c.ssid, c.ake.revealKey, c.ake.sigKey = calculateAKEKeys(s, c.version)
+	c.ake.ssid, c.ake.revealKey, c.ake.sigKey = calculateAKEKeys(s, c.version)
+	if c.msgState != encrypted {
+		// an established session keeps its id until the new exchange has completed
+		c.ssid = c.ake.ssid
+	}
 }
 
 func (c *Conversation) setSecretExponent(val secretKeyValue) {
